@@ -115,7 +115,7 @@ func MatchTopic(filter string, topic string) (elements []string, matched bool) {
 		}
 	}
 
-	return elements, true
+	return elements, len(filterParts) == len(topicParts)
 }
 
 // Ledger is an auth ledger containing access rules for users and topics.
@@ -167,16 +167,23 @@ func (l *Ledger) ACLOk(cl *mqtt.Client, topic string, write bool) (n int, ok boo
 	// of iterating through global rules.
 	if l.Users != nil {
 		if u, ok := l.Users[string(cl.Properties.Username)]; ok && len(u.ACL) > 0 {
+			// The filters are a map, so the decision must not depend on the order
+			// in which matching filters are visited: any granting filter allows,
+			// otherwise any matching filter denies (as for the global rules below).
+			matched := false
 			for filter, access := range u.ACL {
 				if filter.FilterMatches(topic) {
+					matched = true
 					if !write && (access == ReadOnly || access == ReadWrite) {
 						return n, true
 					} else if write && (access == WriteOnly || access == ReadWrite) {
 						return n, true
-					} else {
-						return n, false
 					}
 				}
+			}
+
+			if matched {
+				return n, false
 			}
 		}
 	}
